@@ -183,5 +183,10 @@ theorem c08_limit_changes_only_by_purchase (g : GenCfg) (hg : GenRegValid g) (s 
       obtain ⟨_, _, _, hlims, _⟩ := regInv_setParams (s.reg k) p (s'.reg k) hri h
       simp [RegState.limitOf, hlims]
 
+/-- the compile-time default limit used for a registration without a limit entry is the source's -/
+theorem c08_limits_from_source :
+    AL.find? Facts.limits "wrkchain.DefaultStorageLimit" = some constDefaultStorageLimit ∧
+    AL.find? Facts.limits "beacon.DefaultStorageLimit" = some constDefaultStorageLimit := by decide
+
 end C08
 end Mainchain
